@@ -127,7 +127,7 @@ def steady_state_transport_solver(
         nlx, nly = nxe, nye
 
     # Deltas for truncated Fourier transform
-    dlx, dly = (nxe - nlx) // 2, (nye - nly) // 2
+    dlx, dly = nxe // 2 - nlx // 2, nye // 2 - nly // 2
 
     if footprint:
         # Fourier trafo of delta distribution
@@ -139,7 +139,7 @@ def steady_state_transport_solver(
         fftq0 = fftshift(fftq0)
 
         # truncate fourier series by removing higher-frequency components
-        tfftq0 = fftq0[dly : nye - dly, dlx : nxe - dlx]
+        tfftq0 = fftq0[dly : dly + nly, dlx : dlx + nlx]
 
         # unshift
         tfftq0 = ifftshift(tfftq0)
@@ -267,10 +267,16 @@ def steady_state_transport_solver(
 
     # untruncate
     fftp = np.pad(
-        tfftp, ((0, 0), (dly, dly), (dlx, dlx)), mode="constant", constant_values=0.0
+        tfftp,
+        ((0, 0), (dly, nye - nly - dly), (dlx, nxe - nlx - dlx)),
+        mode="constant",
+        constant_values=0.0,
     )
     fftq = np.pad(
-        tfftq, ((0, 0), (dly, dly), (dlx, dlx)), mode="constant", constant_values=0.0
+        tfftq,
+        ((0, 0), (dly, nye - nly - dly), (dlx, nxe - nlx - dlx)),
+        mode="constant",
+        constant_values=0.0,
     )
 
     # unshift
